@@ -6,6 +6,8 @@ import RagcModel.Lemmas.Packs
 import RagcModel.Lemmas.Agc3Names
 import RagcModel.Props.C09
 import RagcModel.Props.C12
+import RagcModel.Lemmas.WriterGroups
+import RagcModel.Lemmas.WriterContainer
 /-!
 # C02 — archives conform to the AGC v3 format: an independent decoder agrees
 
@@ -32,11 +34,28 @@ This file proves the layer facts that make those rules the right ones for what t
 * `lz_entry_decodes`: an LZ entry decodes against the group reference to the registered segment,
   is empty exactly when the segment equals the reference, and contains no `0xFF` (from C09).
 
-Not proved here: `wf_read : ArchiveWF inp a → decodeArchive a = inp` for an executable
-well-formedness predicate (the end-to-end statement about the byte-level decoder). The per-layer
-theorems above and in `Props/C01.lean`, C03, C07, C09, C10, C12, C13 are its ingredients; the glue
-(container ∘ catalogue ∘ per-descriptor lookup) is tied to the real writer by running the decoder
-on every generated archive.
+## The reference writer (`Model/Writer.lean`)
+
+`Writer.writeArchive cfg inp dec zc` is a whole-archive model of the compressor, composed only from
+the layer models, with every heuristic / scheduling choice as data (`Decisions`). It is TIED TO THE
+REAL WRITER by the C02 harness: for every generated archive the decisions are read off the decoded
+archive, the reference writer is run on the input, and its output must be the real file BYTE FOR
+BYTE (`writer-check`, counter `writer_bytes_identical`). About it this file proves, for ALL
+decisions (the second half of the section list below):
+
+* `container_returns_every_part`: the container history of one `create` (registrations, buffered
+  parts, ONE flush, close) opened by the decoder lists the registered names in order and every
+  stream reads back exactly the parts buffered under its name, in order;
+* `group_roundtrip`: whatever the members of a group and their arrival order, the decoder's
+  `decodeGroup` on the two streams `storeGroup` writes reports NO violation (one reference part,
+  metadata convention, final separator, 50 entries per pack but the last, placeholder) and
+  recovers the reference and every pack entry;
+* `read_write_segments`: every member of every group is recovered by the decoder's get-segment
+  path from the id the writer registers for it (reference / LZ entry / raw entry).
+
+`Props/C01.lean` continues with the contig level (`read_write_bases`). NOT proved: the last
+composition step to `decodeArchive (writeArchive …) = ok d ∧ d.violations = []` — see the list at
+the end of `Props/C01.lean`.
 -/
 namespace Ragc.Props.C02
 open Ragc.StreamNames Ragc.Packs Ragc.Agc3
@@ -302,5 +321,78 @@ theorem lz_pack_entry_decodes (S : UInt64 → List Nat) (mm : Nat) (ref : List N
   obtain ⟨hc, hne, henc⟩ := hall i hi
   simp only [Option.bind_some]
   exact (lz_entry_decodes S mm ref _ _ hc hne henc).1
+
+/-! ## the reference writer: container, groups, segments -/
+
+open Ragc.Writer Ragc.WriterLemmas in
+/-- **The container gives every part back.** For ANY list of distinct stream names without NUL
+and ANY list of parts buffered under those names (metadata `u64`), the file written by the history
+"register all, buffer all, ONE flush, close" (`Writer.archiveOps`, what `create` does) is opened
+by the decoder; its directory lists the names in registration order; and every stream reads back
+exactly the parts buffered under its name, in buffering order (`partsOf`: empty parts lose their
+metadata, archive.rs 301-303). Physical side condition: the file is shorter than `2^63`.
+Composition of C13 (`rel_run`, `flush_commits_per_stream`, `openBytesFixed_close`) with
+`part_reader_agrees`. -/
+theorem container_returns_every_part (names : List (List Nat)) (parts : List (List Nat × Ragc.Container.Blob))
+    (hnd : names.Nodup) (h0 : 0 < names.length) (hnul : ∀ n ∈ names, ∀ b ∈ n, b ≠ 0)
+    (hin : ∀ nb ∈ parts, nb.1 ∈ names) (hmd : ∀ nb ∈ parts, nb.2.2 < 2 ^ 64)
+    (hlen : (Ragc.Container.close (Ragc.Container.run (archiveOps names parts))).length ≤ Ragc.Agc3.seekMax) :
+    ∃ o, openArchive (Ragc.Container.close (Ragc.Container.run (archiveOps names parts))) = .ok o ∧
+      o.dir.map (·.name) = names ∧
+      ∀ st ∈ o.dir, Ragc.Agc3.readParts o.file st = .ok (partsOf parts st.name) :=
+  archive_opens names parts hnd h0 hnul hin hmd hlen
+
+example :
+    let names := [[97], [120, 71, 100]]
+    let parts : List (List Nat × Ragc.Container.Blob) := [([120, 71, 100], ([1, 2], 5)), ([97], ([], 9)), ([120, 71, 100], ([3], 0))]
+    names.Nodup ∧ (∀ nb ∈ parts, nb.1 ∈ names) ∧
+      Ragc.WriterLemmas.partsOf parts [120, 71, 100] = [([1, 2], 5), ([3], 0)] ∧
+      Ragc.WriterLemmas.partsOf parts [97] = [([], 0)] := by decide
+
+open Ragc.Writer Ragc.WriterLemmas in
+/-- **One group, written and decoded.** Take ANY group decision `G` (raw or LZ, any tuple flag) and
+ANY member data in ANY arrival order (non-empty, over the literal codes). If the planner answers
+(`planGroup`: it does whenever `min_match_len ≥ 4`, C09 `encode_total`), then the decoder's
+`decodeGroup` on the group's two streams as `storeGroup` writes them — reference by
+`storeReference`, packs by `storePack ∘ packEntries` — returns the SAME violation accumulator
+(none of: duplicate-stream, one-reference-part, raw-group-with-reference, part-undecodable,
+metadata-size, pack-no-final-separator, pack-cardinality, raw-placeholder fires) and a decoded
+group that holds exactly the plan's reference and pack entries. Any ZSTD with the two facts of C12. -/
+theorem group_roundtrip (zc : Nat → List Nat → List Nat) (zd : List Nat → Option (List Nat))
+    (hz : ∀ l x, zd (zc l x) = some x) (hne : ∀ l x, zc l x = [] → x = [])
+    (cfg : Cfg) (G : GroupDec) (datas : List (List Nat)) (P : GroupPlan)
+    (hplan : planGroup cfg.minMatch G datas = some P)
+    (hc : ∀ d ∈ datas, d ≠ [] ∧ Ragc.Props.C09.codesOK d) (a : Acc) (out : Array GroupD) :
+    ∃ GD, decodeGroup zd (a, out)
+        ⟨P.id, 1, 1, (storeGroup cfg zc G.tuples P).refPart.toList, (storeGroup cfg zc G.tuples P).packs⟩
+          = (a, out.push GD) ∧ GDMatches GD P :=
+  decodeGroup_plan zc zd hz hne cfg G.tuples P (planGroup_spec cfg.minMatch G datas P hplan hc).2.1 a out
+
+open Ragc.Writer Ragc.WriterLemmas in
+/-- **Every registered piece is recovered by the decoder's get-segment path.** For ANY group
+decision and ANY member data in ANY arrival order: member `j` gets the in-group id `P.ids[j]`
+(0 exactly for the reference and for members equal to it; ids reused inside a pending pack), the
+id is at most the number of members, and for every group table `gds` in which the decoder finds a
+group holding the plan's content (`group_roundtrip`), `getSegment` on the descriptor
+`(G.id, P.ids[j], rev, len)` the writer registers returns the member's data — through
+`entryAddress`, the pack splitter and, for LZ groups, `LzDiff.decodeSeg` against the reference.
+Composition of `packs_addressing` with C09. -/
+theorem read_write_segments (mm : Nat) (G : GroupDec) (datas : List (List Nat)) (P : GroupPlan)
+    (hplan : planGroup mm G datas = some P)
+    (hc : ∀ d ∈ datas, d ≠ [] ∧ Ragc.Props.C09.codesOK d)
+    (gds : Array GroupD) (GD : GroupD) (hf : Ragc.Agc3.findGroup gds G.id = some GD) (hm : GDMatches GD P)
+    (j : Nat) (hj : j < datas.length) (rev : Bool) (len : Nat) :
+    P.ids.length = datas.length ∧ P.ids.getD j 0 ≤ datas.length ∧
+      getSegment mm gds ⟨G.id, P.ids.getD j 0, rev, len⟩ = .ok datas[j] := by
+  obtain ⟨hid, _, hl, hseg⟩ := planGroup_spec mm G datas P hplan hc
+  refine ⟨hl, (hseg j hj).1, ?_⟩
+  rw [← hid]
+  exact getSegment_plan mm gds P GD _ _ rev len (by rw [hid]; exact hf) hm (hseg j hj).2
+
+-- a raw group with three members, the third equal to the first (id reuse in the pending pack)
+example : Ragc.Writer.planGroup 5 ⟨3, false, []⟩ [[0, 1, 2], [3], [0, 1, 2]]
+    = some ⟨3, none, [[[127], [0, 1, 2], [3]]], [1, 2, 1]⟩ := by decide
+-- an LZ group whose only member is its reference
+example : Ragc.Writer.planGroup 5 ⟨16, true, []⟩ [[0, 1, 2, 3]] = some ⟨16, some [0, 1, 2, 3], [], [0]⟩ := by decide
 
 end Ragc.Props.C02
